@@ -29,6 +29,7 @@ def run(ctx, sess):
     ctx.rule('C13.11', 'writer and reader agree on the storage types of user data: every type for which jls_wr_user_data reaches the chunk write (other than behind a test of the list head, the placeholder that opens the list) is a type for which jls_core_user_data reaches the callback')
     ctx.rule('C13.12', 'one separator per string: the reader skips the unit separator 0x1f that follows a terminator at most once (the test is not on a loop), as the writer emits exactly one - a string that itself begins with 0x1f keeps its first characters')
     ctx.rule('C13.14', 'a rejected definition changes nothing, also in the threaded writer: what it keeps from a definition request (the per-signal entry size) is stored only on the zero-result edge of the synchronous definition call (shared with C10.18) - a refused duplicate must not reset or replace the entry of the signal that exists')
+    ctx.rule('C13.15', 'the definition that is returned is the one used for storage: the annotation and UTC decimation factors are raised to their minimum where the definition is normalised, before it is serialised (shared with C16.8) - not later, where only the time-series writer sees the corrected value')
     ctx.rule('C13.13', 'a payload larger than the read buffer arrives whole: the chunk read does not keep a pointer into the buffer across the call that grows it (shared with C10.28)')
     ctx.rule('C13.9', 'every stored item is delivered: in the reader loop that hands user data to the callback, no path leads from a chunk that was read successfully to the next iteration of the loop without passing the callback (only error returns leave the loop early)')
     ctx.rule('C13.7', 'absent strings: a char* field of a user definition is never passed to strlen/memcpy without a NULL test')
@@ -62,6 +63,8 @@ def run(ctx, sess):
     relay(ctx, sess, _src_c06.run, {'C06.12': 'C13.10'}, only_functions=('jls_twr_user_data',), minimum=1)
     from . import c10 as _src_c10
     relay(ctx, sess, _src_c10.run, {'C10.18': 'C13.14'}, minimum=1)
+    from . import c16 as _src_c16
+    relay(ctx, sess, _src_c16.run, {'C16.8': 'C13.15'}, minimum=1)
 
 
 def _calls(fn, names, evs=None):
